@@ -807,7 +807,34 @@ pub fn run_c13(tier: Tier) -> i32 {
     let max_nodes = if tier == Tier::Quick { 3 } else { 5 };
     let keys = ["", "a", "b"];
     let by = c13_texts(max_nodes, &keys);
-    let texts: Vec<&String> = by.iter().flatten().collect();
+    // member names that mean something to a path / pointer / template syntax, holding containers:
+    // all ordered pairs of names as siblings and as parent / child
+    let awkward = [
+        "~", "~0", "~1", "~01", "~10", "~~", "/", "a/b", "a~0b", "a~b", "a~1b", "//", ".", "a.b", "..", "0", "1", "-1", "-",
+        "[0]", "a[0]", "[]", "#", "$", "$ref", "*", "\\\\", "\\\"", " ", "\\u0000", "é", "日本", "__proto__",
+    ];
+    let vals = ["[1]", "{\"x\":[2,\"s\"]}", "[[],{}]", "3"];
+    let mut extra: Vec<String> = vec![];
+    for (i, k1) in awkward.iter().enumerate() {
+        for v in vals {
+            extra.push(format!("{{\"{k1}\":{v}}}"));
+            extra.push(format!("[{{\"{k1}\":{v}}},{{\"{k1}\":{{\"{k1}\":{v}}}}}]"));
+        }
+        for (j, k2) in awkward.iter().enumerate() {
+            if i == j {
+                continue;
+            }
+            for (a, b) in [(vals[0], vals[1]), (vals[1], vals[3]), (vals[2], vals[0])] {
+                if tier == Tier::Quick && a != vals[0] {
+                    continue;
+                }
+                extra.push(format!("{{\"{k1}\":{a},\"{k2}\":{b}}}"));
+                extra.push(format!("{{\"{k1}\":{{\"{k2}\":{a}}}}}"));
+            }
+        }
+    }
+    rec.set_extra("documents_with_awkward_member_names", json!(extra.len()));
+    let texts: Vec<&String> = by.iter().flatten().chain(extra.iter()).collect();
     let next = AtomicUsize::new(0);
     let outcomes = std::sync::Mutex::new(HashSet::<u64>::new());
     let evals = AtomicUsize::new(0);
